@@ -75,3 +75,70 @@ theorem unq_quoteValue (w : Str) (hw : ∀ c ∈ w, c ≠ '\x00') (acc t : Str) 
     simp
 
 end P
+
+namespace P
+
+theorem nul_needsEsc : needsEsc '\x00' = true := by decide
+
+/-- a word that needs no escaping is read back verbatim outside quotes, provided it does not start a quote -/
+theorem unq_plain (w : Str) (hw : ∀ c ∈ w, needsEsc c = false) (acc t : Str) :
+    unq true none acc (w ++ t) = unq true none (w.reverse ++ acc) t := by
+  induction w generalizing acc with
+  | nil => simp
+  | cons c w ih =>
+    have hn := hw c (by simp)
+    have key : ∀ d ∈ [' ', '\t', '\n', '\r', '"', '\'', '\\'], c ≠ d := by
+      intro d hd e; subst e; have := active_needsEsc c hd; simp [hn] at this
+    have h0 : c ≠ '\x00' := by intro e; subst e; simp [nul_needsEsc] at hn
+    have h1 : c ≠ '"' := key _ (by simp)
+    have h2 : c ≠ '\\' := key _ (by simp)
+    have h3 : c ≠ '\'' := key _ (by simp)
+    rw [List.cons_append, unq]
+    simp only [show (c == '\x00') = false by simpa using h0, Bool.false_eq_true, if_false, isQuote,
+      show (c == '"') = false by simpa using h1, show (c == '\'') = false by simpa using h3, Bool.or_self,
+      Bool.false_and, show (c == '\\') = false by simpa using h2]
+    simp only [show ((none : Option Char) == some c) = false by rfl, Bool.false_eq_true, if_false]
+    rw [ih (fun d hd => hw d (by simp [hd]))]; simp
+
+/-- one rendered word, at the start of the value or after white space, reads back as the word -/
+theorem unq_quoteWord (w : Str) (hw : ∀ c ∈ w, c ≠ '\x00') (acc t : Str) (hacc : acc.isEmpty = true ∨ endsWs acc = true) :
+    unq true none acc (quoteWord w ++ t) = unq true none (w.reverse ++ acc) t := by
+  unfold quoteWord
+  by_cases hq : (w.isEmpty || w.any needsEsc) = true
+  · simp only [hq, if_true, List.cons_append, List.append_assoc]
+    rw [unq]
+    have hopen : (acc.isEmpty || endsWs acc) = true := by rcases hacc with h | h <;> simp [h]
+    simp only [show ('"' == '\x00') = false by decide, Bool.false_eq_true, if_false, isQuote, beq_self_eq_true,
+      Bool.true_or, Bool.not_true, Option.isNone_none, Bool.or_true, Bool.true_and, hopen, if_true]
+    rw [unq_quoteValue w hw, List.nil_append, unq]
+    simp [isQuote]
+  · simp only [hq, Bool.false_eq_true, if_false]
+    simp only [Bool.or_eq_true, not_or, Bool.not_eq_true] at hq
+    exact unq_plain w (fun c hc => by have := List.any_eq_false.mp hq.2 c hc; simpa using this) acc t
+
+theorem unq_joinSp (ws : List Str) (hw : ∀ w ∈ ws, ∀ c ∈ w, c ≠ '\x00') (acc : Str)
+    (hacc : acc.isEmpty = true ∨ endsWs acc = true) :
+    ∃ r, unq true none acc (joinSp (ws.map quoteWord)) = some r := by
+  induction ws generalizing acc with
+  | nil => exact ⟨acc.reverse, by simp [joinSp, unq]⟩
+  | cons w ws ih =>
+    cases ws with
+    | nil =>
+      have := unq_quoteWord w (hw w (by simp)) acc [] hacc
+      simp only [List.append_nil] at this
+      exact ⟨(w.reverse ++ acc).reverse, by simp [joinSp, this, unq]⟩
+    | cons w' ws =>
+      have e : joinSp ((w :: w' :: ws).map quoteWord) = quoteWord w ++ ' ' :: joinSp ((w' :: ws).map quoteWord) := by
+        simp [joinSp]
+      rw [e, unq_quoteWord w (hw w (by simp)) acc _ hacc, unq]
+      simp only [show (' ' == '\x00') = false by decide, Bool.false_eq_true, if_false, isQuote,
+        show (' ' == '"') = false by decide, show (' ' == '\'') = false by decide, Bool.or_self, Bool.false_and,
+        show (' ' == '\\') = false by decide, show ((none : Option Char) == some ' ') = false by rfl]
+      exact ih (fun x hx => hw x (by simp [hx])) _ (Or.inr (by simp [endsWs]))
+
+/-- C01_storable: a rendered command line is always accepted by the validation of `add_raw` -/
+theorem unquote_quoteWords (ws : List Str) (hw : ∀ w ∈ ws, ∀ c ∈ w, c ≠ '\x00') :
+    ∃ r, unquoteValue true (quoteWords ws) = some r :=
+  unq_joinSp ws hw [] (Or.inl rfl)
+
+end P
